@@ -136,4 +136,160 @@ theorem lev_reverse : ∀ (a b : Str), lev a.reverse b.reverse = lev a b := by
       simp only [List.reverse_cons] at h1 ihb ⊢
       rw [lev_snoc, h1, ihb, h3, lev_cons_cons]
 
+/-! ### translations: the record kept by `findTranslations` -/
+
+/-- what `findTranslations` has recorded agrees with the (column, language) pairs read so far -/
+structure TrInv (t : Tr) (ps : List (Str × Str)) : Prop where
+  seen : ∀ e ∈ t.seen, ∀ c, c ∈ e.2 ↔ (c, e.1) ∈ ps
+  keys : ∀ l, (∃ e ∈ t.seen, e.1 = l) ↔ ∃ c, (c, l) ∈ ps
+  cols : ∀ c, c ∈ t.cols ↔ ∃ l, (c, l) ∈ ps
+
+theorem addSeen_seen (seen : List (Str × List Str)) (ps : List (Str × Str)) (l n : Str)
+    (h1 : ∀ e ∈ seen, ∀ c, c ∈ e.2 ↔ (c, e.1) ∈ ps)
+    (h2 : ∀ l, (∃ e ∈ seen, e.1 = l) ↔ ∃ c, (c, l) ∈ ps) :
+    ∀ e ∈ addSeen seen l n, ∀ c, c ∈ e.2 ↔ (c, e.1) ∈ ps ++ [(n, l)] := by
+  intro e he c
+  unfold addSeen at he
+  split at he
+  · rw [List.mem_map] at he
+    obtain ⟨e0, he0, rfl⟩ := he
+    by_cases hk : e0.1 = l
+    · simp only [hk, if_true, List.mem_append, List.mem_singleton, Prod.mk.injEq, and_true]
+      rw [h1 e0 he0 c, hk]
+    · simp [hk, h1 e0 he0 c]
+  · rename_i hany
+    rw [List.mem_append, List.mem_singleton] at he
+    rcases he with he | rfl
+    · have hk : e.1 ≠ l := by
+        intro hk; apply hany
+        simp only [List.any_eq_true, decide_eq_true_eq]
+        exact ⟨e, he, hk⟩
+      simp only [List.mem_append, List.mem_singleton, Prod.mk.injEq]
+      rw [h1 e he c]
+      constructor
+      · intro h; exact Or.inl h
+      · rintro (h | ⟨_, h⟩)
+        · exact h
+        · exact absurd h hk
+    · simp only [List.mem_singleton, List.mem_append, Prod.mk.injEq, and_true]
+      constructor
+      · intro h; exact Or.inr h
+      · rintro (h | h)
+        · exfalso; apply hany
+          obtain ⟨e, he, hk⟩ := (h2 l).mpr ⟨c, h⟩
+          simp only [List.any_eq_true, decide_eq_true_eq]
+          exact ⟨e, he, hk⟩
+        · exact h
+
+theorem addSeen_keys (seen : List (Str × List Str)) (ps : List (Str × Str)) (l n : Str)
+    (h2 : ∀ l, (∃ e ∈ seen, e.1 = l) ↔ ∃ c, (c, l) ∈ ps) :
+    ∀ l', (∃ e ∈ addSeen seen l n, e.1 = l') ↔ ∃ c, (c, l') ∈ ps ++ [(n, l)] := by
+  intro l'
+  have hkeys : (∃ e ∈ addSeen seen l n, e.1 = l') ↔ ((∃ e ∈ seen, e.1 = l') ∨ l' = l) := by
+    unfold addSeen
+    split
+    · rename_i hany
+      simp only [List.any_eq_true, decide_eq_true_eq] at hany
+      constructor
+      · rintro ⟨e, he, hk⟩
+        rw [List.mem_map] at he
+        obtain ⟨e0, he0, rfl⟩ := he
+        left; refine ⟨e0, he0, ?_⟩
+        split at hk <;> exact hk
+      · rintro (⟨e, he, hk⟩ | rfl)
+        · refine ⟨_, List.mem_map.mpr ⟨e, he, rfl⟩, ?_⟩
+          split <;> exact hk
+        · obtain ⟨e, he, hk⟩ := hany
+          exact ⟨_, List.mem_map.mpr ⟨e, he, rfl⟩, by simp [hk]⟩
+    · constructor
+      · rintro ⟨e, he, hk⟩
+        rw [List.mem_append, List.mem_singleton] at he
+        rcases he with he | rfl
+        · exact Or.inl ⟨e, he, hk⟩
+        · exact Or.inr hk.symm
+      · rintro (⟨e, he, hk⟩ | rfl)
+        · exact ⟨e, List.mem_append_left _ he, hk⟩
+        · exact ⟨(l', [n]), by simp, rfl⟩
+  rw [hkeys, h2 l']
+  simp only [List.mem_append, List.mem_singleton, Prod.mk.injEq]
+  constructor
+  · rintro (⟨c, h⟩ | rfl)
+    · exact ⟨c, Or.inl h⟩
+    · exact ⟨n, Or.inr ⟨rfl, rfl⟩⟩
+  · rintro ⟨c, h | ⟨_, h⟩⟩
+    · exact Or.inl ⟨c, h⟩
+    · exact Or.inr h
+
+
+theorem TrInv.add {t : Tr} {ps : List (Str × Str)} (h : TrInv t ps) (l n : Str) :
+    TrInv { seen := addSeen t.seen l n, cols := if t.cols.contains n then t.cols else t.cols ++ [n] }
+      (ps ++ [(n, l)]) where
+  seen := addSeen_seen t.seen ps l n h.seen h.keys
+  keys := addSeen_keys t.seen ps l n h.keys
+  cols := by
+    intro c
+    have hc := h.cols c
+    by_cases hn : t.cols.contains n = true
+    · simp only [hn, if_true, hc, List.mem_append, List.mem_singleton, Prod.mk.injEq]
+      constructor
+      · rintro ⟨l', h'⟩; exact ⟨l', Or.inl h'⟩
+      · rintro ⟨l', h' | ⟨rfl, _⟩⟩
+        · exact ⟨l', h'⟩
+        · exact (h.cols c).mp (by simpa using hn)
+    · have hn' : t.cols.contains n = false := by simpa using hn
+      simp only [hn', Bool.false_eq_true, if_false, List.mem_append, List.mem_singleton, hc, Prod.mk.injEq]
+      constructor
+      · rintro (⟨l', h'⟩ | rfl)
+        · exact ⟨l', Or.inl h'⟩
+        · exact ⟨l, Or.inr ⟨rfl, rfl⟩⟩
+      · rintro ⟨l', h' | ⟨rfl, _⟩⟩
+        · exact Or.inl ⟨l', h'⟩
+        · exact Or.inr rfl
+
+/-- one header: the record grows by exactly the pair the header stands for -/
+theorem TrInv.step (tbl : Aliases) {t : Tr} {ps : List (Str × Str)} (h : TrInv t ps) (hd : List Str)
+    (hshort : (match trStrip hd with | h0 :: _ :: _ :: _ => (trName tbl h0).isNone | _ => true) = true) :
+    TrInv (trHead tbl t (trStrip hd)) (ps ++ (trPair tbl hd).toList) := by
+  unfold trPair trHead
+  cases hs : trStrip hd with
+  | nil => simpa using h
+  | cons h0 rest =>
+    rw [hs] at hshort
+    cases hn : trName tbl h0 with
+    | none => cases rest with
+      | nil => simpa [hn] using h
+      | cons l r2 => cases r2 <;> simpa [hn] using h
+    | some n =>
+      cases rest with
+      | nil => simpa [hn] using h.add defaultLang n
+      | cons l r2 =>
+        cases r2 with
+        | nil => simpa [hn] using h.add l n
+        | cons x y => simp [hn] at hshort
+
+theorem TrInv.fold (tbl : Aliases) : ∀ (hs : List (List Str)) (t : Tr) (ps : List (Str × Str)),
+    TrInv t ps → trShort tbl hs = true →
+    TrInv (hs.foldl (fun t h => trHead tbl t (trStrip h)) t) (ps ++ trPairs tbl hs)
+  | [], t, ps, h, _ => by simpa [trPairs] using h
+  | hd :: hs, t, ps, h, hsh => by
+    simp only [trShort, List.all_cons, Bool.and_eq_true] at hsh
+    have h1 := h.step tbl hd hsh.1
+    have h2 := TrInv.fold tbl hs _ _ h1 (by simpa [trShort] using hsh.2)
+    simp only [List.foldl_cons]
+    have : ps ++ trPairs tbl (hd :: hs) = ps ++ (trPair tbl hd).toList ++ trPairs tbl hs := by
+      simp only [trPairs, List.filterMap_cons]
+      cases trPair tbl hd <;> simp
+    rw [this]; exact h2
+
+theorem TrInv.init : TrInv {} [] where
+  seen := by intro e he; cases he
+  keys := by intro l; simp
+  cols := by intro c; simp
+
+theorem findTranslations_inv (tbl : Aliases) (hs : List (List Str)) (hsh : trShort tbl hs = true) :
+    TrInv (findTranslations tbl hs) (trPairs tbl hs) := by
+  have := TrInv.fold tbl hs {} [] TrInv.init hsh
+  simpa [findTranslations] using this
+
+
 end Pyxv.Warn
